@@ -539,4 +539,14 @@ def _vol_curve_tanks(tier, seed):
                       "(these with projected volumes inside the curve's range)")
 
 
-BOUNDED = [Bounded("C06.volume_curve_tanks", P + ["C05"], _vol_curve_tanks, kind="simulation of volume-curve tanks, run-time contract")]
+def _tank_sim(i, n):
+    def run(tier, seed):
+        import sys, os
+        sys.path.insert(0, os.path.dirname(os.path.dirname(os.path.abspath(__file__))))
+        from bounded import c06_tanks_sim
+        return c06_tanks_sim.run(tier, seed, i, n)
+    return run
+
+
+BOUNDED = [Bounded("C06.volume_curve_tanks", P + ["C05"], _vol_curve_tanks, kind="simulation of volume-curve tanks, run-time contract")] + \
+          [Bounded("C06.cylindrical_tanks[%d/4]" % i, P, _tank_sim(i, 4), kind="real simulator on listed / generated networks (not exhaustive)") for i in range(4)]
